@@ -24,8 +24,13 @@ TECHNIQUE = ("bounded-exhaustive enumeration of (address, length, buffer, "
 RULE = ("buffer sizes {4,5,6,7,8,12,16,256} x window {1,2,3,8} x address mod "
         "4 at two bases x every length 0..3*buffer+3 (256: boundary lengths); "
         "every field of the sv and vcpu structs (cores 0,1,17); fills; link "
-        "accesses; faults (request lost, reply lost, duplicated, slow) with "
-        "<=1 (thorough 2) deviations on buffer 8 / window 3 / lengths 0..20. "
+        "accesses; faults (request lost, reply lost, duplicated, slow, "
+        "retryable answer, duplicated retryable answer) with "
+        "<=1 (thorough 3) deviations on buffer 8 / windows 3 and 1 / lengths "
+        "0..20 (40); sequence counter wrapping inside one transfer (losses, 2 "
+        "deviations); two-operation histories with late replies; structs "
+        "sharing field names; application core advertising another buffer; "
+        "every read/write/fill command addressed to the named core. "
         "Non-trivial: length > 0; cases are distinct by construction")
 ASSUMPTIONS = [
     "SimMachine implements SCP read/write/fill/link commands as described by "
